@@ -965,6 +965,20 @@ fn set_body(c: &SetCase, _ch: &Chooser) -> Outcome {
     let mut obs = String::new();
     if let Some(back) = through_headers(&mut o, &mut obs, &status, c.code as i32, msg, &want, false) {
         judge_getters(&mut o, &mut obs, &back, &want, false);
+        // the same status as a unary caller receives it when the peer had already sent its response
+        // headers (status in the trailers): the details must come out of the getters just the same
+        if c.code != 0 {
+            match super::c04::unary_error_after_headers(status.clone()) {
+                Err(why) => o.violate("unary-caller:status-lost", why),
+                Ok(seen) => {
+                    let before = o.violations.len();
+                    judge_getters(&mut o, &mut obs, &seen, &want, false);
+                    for v in o.violations.iter_mut().skip(before) {
+                        v.0 = format!("unary-caller:{}", v.0);
+                    }
+                }
+            }
+        }
         judge_metadata(&mut o, &back, c.md);
     }
     o.obs = obs;
@@ -1049,6 +1063,20 @@ fn vec_body(c: &VecCase, _ch: &Chooser) -> Outcome {
     let mut obs = String::new();
     if let Some(back) = through_headers(&mut o, &mut obs, &status, c.code as i32, msg, &want, true) {
         judge_getters(&mut o, &mut obs, &back, &want, true);
+        // the same status as a unary caller receives it when the peer had already sent its response
+        // headers (status in the trailers): the details must come out of the getters just the same
+        if c.code != 0 {
+            match super::c04::unary_error_after_headers(status.clone()) {
+                Err(why) => o.violate("unary-caller:status-lost", why),
+                Ok(seen) => {
+                    let before = o.violations.len();
+                    judge_getters(&mut o, &mut obs, &seen, &want, true);
+                    for v in o.violations.iter_mut().skip(before) {
+                        v.0 = format!("unary-caller:{}", v.0);
+                    }
+                }
+            }
+        }
         judge_metadata(&mut o, &back, c.md);
     }
     o.obs = obs;
